@@ -56,6 +56,22 @@ func (n *normer) fields(fl *ast.FieldList) {
 	n.w("]")
 }
 
+// SimpleKeys: every element is key: value with a basic literal or an identifier as key.
+func SimpleKeys(elts []ast.Expr) bool {
+	for _, el := range elts {
+		kv, ok := el.(*ast.KeyValueExpr)
+		if !ok {
+			return false
+		}
+		switch kv.Key.(type) {
+		case *ast.BasicLit, *ast.Ident:
+		default:
+			return false
+		}
+	}
+	return len(elts) > 0
+}
+
 // tag prints a struct tag; a tag in conventional format is printed as its key-sorted pairs
 // (jennifer's Tag documents sorted keys), any other as the string value.
 func (n *normer) tag(l *ast.BasicLit) {
@@ -177,8 +193,10 @@ func (n *normer) expr(e ast.Expr) {
 				allKV = false
 			}
 		}
-		if allKV {
-			// Dict orders pairs by key text: compare as a key-sorted list
+		if allKV && !SimpleKeys(e.Elts) {
+			// Dict orders pairs by key text: compare as a key-sorted list (when all keys are plain
+			// literals or identifiers the translator can and does reproduce the source's order, and
+			// the order is compared)
 			var parts []string
 			for _, el := range e.Elts {
 				parts = append(parts, normExpr(el))
